@@ -17,7 +17,7 @@ CLAIMED = {
          "FlushRevert lands on the greatest complete root record below the current end and truncates there, or empties the store; the scan is total by structural recursion (the pinned loop is proved to diverge: defect F2, fixed). Compared on histories with many flushes/reverts/re-opens; hangs are caught by a watchdog.",
          "FlushRevert after a FAILED Flush was defect F10 (repaired); the fault stream reverts directly after failed flushes. `c08s` sweeps the size of the flush being reverted over across every power of two from 512 to 8192. KNOWN FINDING F17 (known_findings.json, corpus/F17, Lean: history_refinement_fails_on_forged_root): a stored value that is a complete root record naming its own offset is taken for the previous flush - the property is known to fail there; history_refinement_partial carries the hypothesis that excludes it. Stream C08f compares FlushRevert with the SPECIFICATION (ghost stack of flushed states in the model driver), one history in three with such a value; those print KNOWN-FINDING, every other disagreement is reported. Collection names of 4100-4300 bytes (root records above 4 KiB) occur in one history in five."),
  "C10": ("Lean proof of the version/mark/reclaim protocol (safe_reachable) + heap-invariant evaluation on the real heap",
-         "For every sequence of acquire/release/load/mutate events and every choice of freed nodes no node of a live version is freed. The harness evaluates the invariant clauses on the implementation's heap (free list, marks, refcounts via verif hooks) after every step of histories with snapshots, replaced/removed collections, nested visits, foreign-store churn.",
+         "For every sequence of acquire/release/load/mutate events and every choice of freed nodes no node of a live version is freed. Static: every call of the marking / reclaiming / freeing / version-counting functions and every assignment to the protocol's fields (regenerated Gen/Sites.lean) is the reviewed one (every_mark_and_free_site_is_an_event, protocol_fields_written_only_by_the_protocol). The harness evaluates the invariant clauses on the implementation's heap (free list, marks, refcounts via verif hooks) after every step of histories with snapshots, replaced/removed collections, nested visits, foreign-store churn.",
          "Mutation is one atomic event in the abstract protocol; node identity abstracted to ids. The protocol theorem presupposes that readers acquire and release the version they read: every_reader_holds_its_version decides that on the regenerated pin table."),
  "C12": ("Lean proof: Machine.refinement with SetCollection/RemoveCollection; correspondence",
          "The store refines the specification in which SetCollection keeps/creates, RemoveCollection drops, names are sorted, durability only at Flush; compared against the package on names and contents after every step and re-open.",
@@ -32,13 +32,13 @@ CLAIMED = {
          "For every image that keeps the bytes below the last durable end E and has no complete root record above E, opening lands exactly on the flush that ended at E; every Flush write (torn or not) keeps that prefix. The harness cuts the write log at every write boundary, every byte of root-record writes and sampled (thorough: all) bytes of other writes, with magic-marker values, altered copies of root records, VERBATIM copies of earlier root records, correctly framed records whose payload is not a root map, 16 trailer-position bytes (top bit set / clear / random) behind a doubled end marker, and a tail-length boundary sweep (junk of every length around each power of two from 512 to 8192) as junk, re-opens each image with the real package and the model, and continues a sample of recovered stores.",
          "The junk hypothesis (no complete self-consistent root record above E) is the property's own exclusion."),
  "C05": ("Lean proof on interleaving Model C (all schedules) + lock-discipline theorems on regenerated lock tables + deterministic-scheduler trace validation",
-         "read_one_version, no_lost_update, flush_persists_current_versions, flush_name_order, no_deadlock for all programs and all schedules of the model; no mutex held across file I/O or callbacks and a fixed lock order (decide on tables regenerated from /repo). The real package is run under a seeded cooperative scheduler (yield hooks, file calls, visitor callbacks) and every read / every concurrent Flush image is validated against the version it pinned.",
+         "read_one_version, no_lost_update, flush_persists_current_versions, flush_name_order, no_deadlock for all programs and all schedules of the model; on Model P (Flush/Snapshot pinning while the mutator replaces collection handles, defect F21): pinning_never_touches_a_closed_handle, pins_taken_in_name_order, pinning_completes_once_the_map_is_quiet for every schedule, the unrepaired walk as a proved counterexample, and the regenerated fact that Flush and Snapshot pin through rootAddRefIfOpen; no mutex held across file I/O or callbacks and a fixed lock order (decide on tables regenerated from /repo). The real package is run under a seeded cooperative scheduler (yield hooks, file calls, visitor callbacks) and every read / every concurrent Flush image is validated against the version it pinned.",
          "PARTIAL by nature: Go memory-model races on unsynchronised cache fills (the package has them: DESIGN.md section 10) are outside every model; a supplementary stream c05s runs real goroutines (one mutator, one flusher, readers; single-version visits, no panic/hang, final content) - it searches, it proves nothing, its replays are not deterministic; schedules are sampled, mutation marking is treated as atomic in Model H."),
  "C07": ("Lean proof of fault-injected Flush (any k-th write, any torn length): reported, changes nothing, keeps durable bytes, retry is ordinary; fault enumeration at every file call",
          "Theorems over the model's fault plan; the harness injects one fault at every individual ReadAt/WriteAt/Stat/Truncate (sampled in quick, all in thorough; torn writes of sampled/all lengths), continues the history, and compares (a) with the fault-aware model, (b) with the specification 'as if the failed call had never been made', plus heap-invariant checks after every failed call.",
          "Read faults are modelled as 'no state change' (the model has no cache); their real-code effect is covered by enumeration. KNOWN FINDING F14 (known_findings.json, corpus/F14): Exist(key) has no error result and answers false for a stored key when a read fails - the property is known to fail there; the check injects faults into Exist, prints KNOWN-FINDING for exactly that shape (failed call is an `exist`, answer `false`) and still reports every other failed call that reports success. EvictSomeItems (best-effort cache hint, no error result, no answer to get wrong) is not an injected operation."),
  "C09": ("Lean proof: Flush log beyond durable end, prefix unchanged (with faults), revert truncation; decide on regenerated call graph: no read-only entry reaches WriteAt/Truncate",
-         "Dynamic theorems for every Flush/CopyTo/FlushRevert of the model; static theorem no_write_reachable over the call graph regenerated from /repo on every run (closure certificate checked in Lean), write_sites/truncate_sites equalities, tools/view read-only. The memfile's complete call log is checked call by call (appendcheck) and compared with the model's write log.",
+         "Dynamic theorems for every Flush/CopyTo/FlushRevert of the model; static theorem no_write_reachable over the call graph regenerated from /repo on every run (closure certificate checked in Lean), write_sites/truncate_sites equalities, tools/view read-only. The memfile's complete call log is checked call by call (appendcheck) and compared with the model's write log; CopyTo onto a file that already holds a store is checked the same way (destination log and durable prefix).",
          "Soundness of the translator's call graph (closures, method values, interface dispatch, json reflection edges) is trusted."),
  "C11": ("Lean proof: copyTo_contents for every flushEvery, independence of flushEvery, destination-only writes; correspondence",
          "copy_equivalent holds for every source and every flushEvery; copy_holds_only_live_item_records for every flushEvery > 0; the package's CopyTo (writable stores, snapshots, evicted and re-opened sources, fe in {-1,0,1,2,3,5,100}) is compared on destination contents, destination image and re-opened destination, source contents and source write log.",
@@ -53,7 +53,7 @@ CLAIMED = {
          "no_panic, no_deadlock, terminates, producer_exits_and_unpins, next_after_end_is_false, observable_deterministic for every item list, consumer program and interleaving; callbacks never run under a mutex (regenerated tables). Real iterators are driven with random Next/Close programs; outputs, goroutine count and version pin are checked; visitor callbacks issue nested reads and mutations.",
          "PARTIAL: real scheduler interleavings of the two goroutines are sampled, not enumerated. An iterator that is exhausted is NOT closed by the harness (the property says 'after Close() or exhaustion'); an iterator abandoned mid-way without Close is outside the property. Static: pins_released_on_every_path (regenerated Gen/Pins.lean). The real-goroutine stress stream c05s (abandoned iterators + AllocStats against dying versions) and a fault stream with iterators run here too."),
  "C15": ("Lean proof of the reference accounting invariant over all event sequences + leak-freedom of the version protocol when no slot is copied unloaded + regenerated obligation on the code's slot copies; callback-log predicates on the implementation",
-         "accounting / never_negative / reachable_positive / closed_balanced_partial for every precondition-respecting sequence of the seven reference events; nodes_freed_or_orphan, nodes_all_freed_if_no_load_under_replaced, nodes_not_all_freed on the version protocol; slots_loaded_before_copied (decide over Gen/SlotCopies.lean, regenerated from /repo). The package runs with counting ItemAlloc/ItemAddRef/ItemDecRef callbacks over histories with snapshots, evictions, flushes, re-opens, nested visits, cold mutations under snapshots; after every step no count is negative and every cached reachable item is positive; after closing everything all counts are zero.",
+         "accounting / never_negative / reachable_positive / closed_balanced_partial for every precondition-respecting sequence of the seven reference events; nodes_freed_or_orphan, nodes_all_freed_if_no_load_under_replaced, nodes_not_all_freed on the version protocol; slots_loaded_before_copied (decide over Gen/SlotCopies.lean, regenerated from /repo); every_counting_site_is_an_event (the 25 ItemAddRef/ItemDecRef/ItemAlloc call sites of the regenerated Gen/Sites.lean are the reviewed ones, each mapped to its event kind). The harness's allocator scrubs pool items at count zero, so a premature release becomes a wrong result (found defect F20). The package runs with counting ItemAlloc/ItemAddRef/ItemDecRef callbacks over histories with snapshots, evictions, flushes, re-opens, nested visits, cold mutations under snapshots; after every step no count is negative and every cached reachable item is positive; after closing everything all counts are zero.",
          "closed_balanced_partial assumes every node object was freed. That assumption was FALSE of the pinned code (defect F11, repaired by /repo c2c929d, replays in corpus/); for the repaired code it is supported by the model theorem nodes_all_freed_if_no_load_under_replaced, the syntactic obligation slots_loaded_before_copied (textual order within a function, not dominance) and the refbalance predicate on the histories run - not by a proof about the Go code. The event model is tied to the code only through these predicates (not an event-by-event log comparison); Get's aliasing reference is counted as the caller's; faults are outside C15's quantifier."),
  "C19": ("Lean proof: open_reads_root_only (exact read list of the scan), key-only loads never touch value bytes, flush writes tile the file; read-log checks on the implementation",
          "The model of NewStore's reads is the Go loop position by position; for files ending in a root record exactly Stat + 2 reads. Key-only traversals in any cache state read only node records and header+key ranges; records never overlap. On the implementation, every open's read list is compared exactly and every read of every key-only call (GetItem/Min/Max/visit without value, Exist, Len, Set, Delete) is checked against the value ranges of all item records ever flushed.",
